@@ -166,6 +166,17 @@ def build():
     tf = fn_body(ps, "try_from", after="TryFrom<Zonefile> for ZoneBuilder")
     one(r"if\s+let\s+ZoneRecordData::Ns\(ns\)\s*=\s*rdata\s*\{\s*glue\.append\(\s*&mut\s+zonefile\.normal\.collect_glue\(ns\.nsdname\(\)\)\s*,?\s*\);\s*\}", tf, "glue collection per NS target")
     defs.append(("zonefile_classifies_ns_ds_below_apex_and_cname", "bool", "true"))
+    # ---- answer.rs: the builder script of Answer::to_message (model: ToMessage.to_message_ops)
+    an = strip_comments(read("src/zonetree/answer.rs"))
+    tm = fn_body(an, "to_message")
+    one(r"let\s+question\s*=\s*message\.sole_question\(\)\.unwrap\(\);\s*let\s+qname\s*=\s*question\.qname\(\);\s*let\s+qclass\s*=\s*question\.qclass\(\);\s*let\s+mut\s+builder\s*=\s*builder\.start_answer\(message,\s*self\.rcode\)\.unwrap\(\);\s*if\s+self\.authoritative\s*\{\s*builder\.header_mut\(\)\.set_aa\(true\);\s*\}", tm, "to_message: start_answer, AA")
+    one(r"AnswerContent::Data\(ref\s+answer\)\s*=>\s*\{\s*for\s+item\s+in\s+answer\.data\(\)\s*\{\s*builder\s*\.push\(\(qname,\s*qclass,\s*answer\.ttl\(\),\s*item\)\)\s*\.unwrap\(\);\s*\}\s*\}\s*AnswerContent::Cname\(ref\s+cname\)\s*=>\s*builder\s*\.push\(\(qname,\s*qclass,\s*cname\.ttl\(\),\s*cname\.data\(\)\)\)\s*\.unwrap\(\)\s*,\s*AnswerContent::NoData\s*=>\s*\{\s*\}", tm, "to_message: answer section")
+    one(r"let\s+mut\s+builder\s*=\s*builder\.authority\(\);\s*if\s+let\s+Some\(authority\)\s*=\s*self\.authority\.as_ref\(\)\s*\{\s*if\s+let\s+Some\(soa\)\s*=\s*authority\.soa\.as_ref\(\)\s*\{\s*builder\s*\.push\(\(\s*authority\.owner\.clone\(\),\s*qclass,\s*soa\.ttl\(\),\s*soa\.data\(\),?\s*\)\)\s*\.unwrap\(\);\s*\}\s*if\s+let\s+Some\(ns\)\s*=\s*authority\.ns\.as_ref\(\)\s*\{\s*for\s+item\s+in\s+ns\.data\(\)\s*\{\s*builder\s*\.push\(\(\s*authority\.owner\.clone\(\),\s*qclass,\s*ns\.ttl\(\),\s*item,?\s*\)\)\s*\.unwrap\(\)\s*\}\s*\}\s*if\s+let\s+Some\(ref\s+ds\)\s*=\s*authority\.ds\s*\{\s*for\s+item\s+in\s+ds\.data\(\)\s*\{\s*builder\s*\.push\(\(\s*authority\.owner\.clone\(\),\s*qclass,\s*ds\.ttl\(\),\s*item,?\s*\)\)\s*\.unwrap\(\)\s*\}\s*\}\s*\}", tm, "to_message: authority section SOA, NS, DS")
+    one(r"let\s+mut\s+builder\s*=\s*builder\.additional\(\);\s*if\s+let\s+Some\(additional\)\s*=\s*self\.additional\.as_ref\(\)\s*\{\s*for\s+item\s+in\s+&additional\.required\s*\{\s*builder\.push\(item\)\.unwrap\(\);\s*\}\s*for\s+item\s+in\s+&additional\.discardable\s*\{\s*if\s+builder\.push\(item\)\.is_err\(\)\s*\{\s*break;\s*\}\s*\}\s*\}\s*builder\s*$", tm, "to_message: additional section")
+    mb = strip_comments(read("src/base/message_builder.rs"))
+    sa = fn_body(mb, "start_answer")
+    one(r"header\.set_id\(msg\.header\(\)\.id\(\)\);\s*header\.set_qr\(true\);\s*header\.set_opcode\(msg\.header\(\)\.opcode\(\)\);\s*header\.set_rd\(msg\.header\(\)\.rd\(\)\);\s*header\.set_rcode\(rcode\);\s*\}\s*let\s+mut\s+builder\s*=\s*self\.question\(\);\s*for\s+item\s+in\s+msg\.question\(\)\.flatten\(\)\s*\{\s*builder\.push\(item\)\?;\s*\}\s*Ok\(builder\.answer\(\)\)\s*$", sa, "MessageBuilder::start_answer")
+    defs.append(("to_message_script_anchored", "bool", "true"))
     # ---- tree.rs
     tr = strip_comments(read("src/zonetree/tree.rs"))
     zs = impl_body(tr, r"impl ZoneSetNode\s*\{")
